@@ -27,13 +27,15 @@ def cyc_universe():
     M = [("match", L("a")), ("append", "s", ("re", RX["a"])), ("append", "s", ("re", q("a", "+"))), ("match", ("re", q("a", "+"))), ("append", "s", L("ab"))]
     H = [(), (("hook", "h"),), (("delete", "s"),), (n1,), (("yield", "Y"),), (("wait", L("b")),), (("appendc", "s", ("num", 65)),), (("match", L("b")),), (("setstr", "s", b""),)]
     C = [("bin", "==", ("var", "n"), ("num", 0)), ("bin", ">", ("len", "s"), ("num", 1))]
+    H = H + [(("if", ((("bin", "==", ("var", "n"), ("num", 1)), (("break", None),)),), None),), (("if", ((("bin", "==", ("var", "n"), ("num", 0)), (("break", None),)),), (n1,)),),
+             (("if", ((("bin", "==", ("var", "n"), ("num", 1)), (("finish", "F"),)),), None),)]
     bodies = []
     for m in M:
         bodies.append((("optional", (m,)),))
         for h in H:
             for opts in (None, ("nomatch",), ("outofspace",)):
                 bodies.append((("try", (m,), opts, h),))
-        for h in H[:6]:
+        for h in H[:6] + H[-3:]:
             bodies.append((("case", False, ((None, (m[-1],), ()), (None, ("else",), h))),) if m[0] == "match" else (("try", (m, ("match", L("c"))), None, h),))
         for c in C:
             bodies.append((("if", ((c, (m,)),), None),))
